@@ -29,6 +29,13 @@ class EngineError(Exception):
     """Contract/engine mismatch (e.g. an invariant names a variable that no longer exists) -> undecided."""
 
 
+class PyRaise(Exception):
+    """a Python exception raised while evaluating an expression (by a dependency contract): ends the path with status raise"""
+
+    def __init__(self, exc):
+        self.exc = exc
+
+
 class _Fork(Exception):
     def __init__(self, cond):
         self.cond = cond
@@ -272,12 +279,17 @@ class Source:
         if name not in self.imports:
             return None
         level, module, orig = self.imports[name]
-        if level == 0 or orig is None:
+        if orig is None:
             return None
-        base = os.path.dirname(self.relpath)
-        for _ in range(level - 1):
-            base = os.path.dirname(base)
-        rel = os.path.join(base, *(module.split(".") if module else []))
+        if level == 0:
+            if not (module or "").startswith("fairlearn"):
+                return None
+            rel = os.path.join(*module.split("."))
+        else:
+            base = os.path.dirname(self.relpath)
+            for _ in range(level - 1):
+                base = os.path.dirname(base)
+            rel = os.path.join(base, *(module.split(".") if module else []))
         for cand in (rel + ".py", os.path.join(rel, "__init__.py")):
             if os.path.exists(os.path.join(REPO, cand)):
                 src = Source.load(cand)
@@ -473,9 +485,11 @@ class Engine:
         if isinstance(s, (ast.If, ast.While, ast.For, ast.Try, ast.With)):
             return self.stmt(s, st)          # compound statements manage their own forking for the test expression
         snap = st.clone()
-        mark, names = len(self.obligations), dict(self._names)
+        mark, names, fmark = len(self.obligations), dict(self._names), _FRESH[0]
         try:
             return self.stmt(s, st)
+        except PyRaise as pr:
+            return [(st, ("raise", pr.exc))]
         except _Fork as f:
             del self.obligations[mark:]
             self._names = names
@@ -484,15 +498,20 @@ class Engine:
                 b = snap.clone()
                 b.decisions.append((f.cond, val))
                 b.pc.append(f.cond if val else Not(f.cond))
+                if self.infeasible(b):
+                    continue
+                _FRESH[0] = fmark          # the restarted statement re-creates the same fresh names, so recorded decisions match
                 outs.extend(self.stmt_forking(s, b))
             return outs
 
     def eval_forking(self, e, st):
         """evaluate expression e; returns [(state, value)] (forks on symbolic truth tests inside e)."""
         snap = st.clone()
-        mark, names = len(self.obligations), dict(self._names)
+        mark, names, fmark = len(self.obligations), dict(self._names), _FRESH[0]
         try:
             return [(st, self.ev(e, st))]
+        except PyRaise as pr:
+            return [(st, pr)]
         except _Fork as f:
             del self.obligations[mark:]
             self._names = names
@@ -501,6 +520,9 @@ class Engine:
                 b = snap.clone()
                 b.decisions.append((f.cond, val))
                 b.pc.append(f.cond if val else Not(f.cond))
+                if self.infeasible(b):
+                    continue
+                _FRESH[0] = fmark
                 outs.extend(self.eval_forking(e, b))
             return outs
 
@@ -508,9 +530,15 @@ class Engine:
         """-> [(state, python bool)] for the truth value of expression `test`"""
         outs = []
         for (s, v) in self.eval_forking(test, st):
+            if isinstance(v, PyRaise):
+                outs.append((s, v))
+                continue
             t = self.truth(v, s)
             if isinstance(t, bool):
                 outs.append((s, t))
+                continue
+            if self.depth > 0:
+                outs.append((s, self.decide(t, s)))
                 continue
             extra = self.c.on_branch(self, s, test, t)       # contract "fold" hints: (facts if taken, facts if not taken)
             a, b = s, s.clone()
@@ -585,6 +613,9 @@ class Engine:
         if isinstance(s, ast.Assert):
             outs = []
             for (b, t) in self.branch(s.test, st):
+                if isinstance(t, PyRaise):
+                    outs.append((b, ("raise", t.exc)))
+                    continue
                 outs.append((b, "fall") if t else (b, ("raise", Exc("AssertionError"))))
             return outs
         if isinstance(s, ast.Break):
@@ -597,6 +628,9 @@ class Engine:
                 return [(st, "fall")]
             outs = []
             for (b, t) in self.branch(s.test, st):
+                if isinstance(t, PyRaise):
+                    outs.append((b, ("raise", t.exc)))
+                    continue
                 outs.extend(self.block(s.body if t else s.orelse, b))
             return outs
         if isinstance(s, ast.While):
@@ -768,6 +802,9 @@ class Engine:
         outs = []
         if is_for:
             for (st1, it) in self.eval_forking(s.iter, st):
+                if isinstance(it, PyRaise):
+                    outs.append((st1, ("raise", it.exc)))
+                    continue
                 outs.extend(self._loop_iter(s, st1, it, lid, spec))
             return outs
         return self._loop_cut(s, st, lid, spec, None)
@@ -862,6 +899,9 @@ class Engine:
         else:
             guards = self.branch(s.test, h)
         for (g_st, taken) in guards:
+            if isinstance(taken, PyRaise):
+                outs.append((g_st, ("raise", taken.exc)))
+                continue
             if not taken:
                 outs.append((g_st, "fall"))
                 continue
@@ -1382,7 +1422,7 @@ class Engine:
                 name = fv.name
         elif isinstance(fv, Closure) and isinstance(fv.node, ast.FunctionDef):
             name = fv.node.name
-        if name is not None:
+        if name is not None and not (name == "isinstance" and isinstance(fv, Abstract) and fv.tag == "builtin"):
             r = self.c.on_call(self, st, node, name, recv, args, kwargs)
             if r is not NotImplemented:
                 return r
@@ -1475,7 +1515,9 @@ class Engine:
             return None
         if status[0] == "return":
             return status[1]
-        raise Unsupported(f"inlined helper {fn.name} raises")
+        if status[0] == "raise":
+            raise PyRaise(status[1])
+        raise Unsupported(f"inlined helper {fn.name}: exit {status}")
 
     def builtin(self, name, args, kwargs, st, node):
         if name == "len":
